@@ -10,7 +10,7 @@ out = f"{base}/out"
 avoid = ""
 if round_:
     import re
-    rows = re.findall(r'^\| ' + pid + r'-m\d \| (.*?) \|', open('/verif/DESIGN.md').read(), re.M)
+    rows = re.findall(r'^\| ' + pid + r'-m\d(?: \([^)]*\))? \| (.*?) \|', open('/verif/DESIGN.md').read(), re.M)
     if rows:
         avoid = ("\n## Already tried (do NOT repeat these ideas or close variants; find different code sites and different failure modes)\n"
                  + "\n".join(f"- {r}" for r in rows) + "\n")
